@@ -146,17 +146,23 @@ fn environment_sensitive(assertion: &str) -> bool {
 
 /// Executes the case; a watchdog kill or a worker death counts only if it happens again on a second execution.
 fn exec_twice(w: &mut WorkerHandle, kind: &ReplayKind, render: bool, budget_ms: u32) -> Exec {
-    match exec_kind_(w, kind, render, budget_ms) {
-        Exec::Fail { assertion, .. } if environment_sensitive(&assertion) => match exec_kind_(w, kind, render, budget_ms) {
-            Exec::Fail { assertion: a2, message, rendering } if environment_sensitive(&a2) => Exec::Fail { assertion: a2, message, rendering },
-            other => {
-                UNREPRODUCED_WATCHDOGS.fetch_add(1, Ordering::SeqCst);
-                other
-            }
-        },
-        e => e,
+    let mut e = exec_kind_(w, kind, render, budget_ms);
+    // second and third execution, after a pause that lets a host hiccup pass: the kill has to happen every time
+    for pause_ms in RETRY_PAUSES_MS {
+        if !matches!(&e, Exec::Fail { assertion, .. } if environment_sensitive(assertion)) {
+            break;
+        }
+        std::thread::sleep(std::time::Duration::from_millis(pause_ms));
+        let again = exec_kind_(w, kind, render, budget_ms);
+        if !matches!(&again, Exec::Fail { assertion, .. } if environment_sensitive(assertion)) {
+            UNREPRODUCED_WATCHDOGS.fetch_add(1, Ordering::SeqCst);
+        }
+        e = again;
     }
+    e
 }
+
+const RETRY_PAUSES_MS: [u64; 2] = [1000, 3000];
 
 pub fn exec_kind(w: &mut WorkerHandle, kind: &ReplayKind, render: bool, budget_ms: u32) -> Exec {
     match exec_twice(w, kind, render, budget_ms) {
@@ -265,10 +271,15 @@ fn random_lane(id: &str, tier: Tier, lane: usize, seed: u64, cases: u32, tape_ma
         let mut e = interpret(worker.borrow_mut().run_tape(&tape, avoid, render, budget));
         if !shrinking && matches!(&e, Exec::Fail { assertion, .. } if environment_sensitive(assertion)) {
             // a watchdog kill or worker death counts only if it happens again
-            let again = interpret(worker.borrow_mut().run_tape(&tape, avoid, render, budget));
-            if !matches!(&again, Exec::Fail { assertion, .. } if environment_sensitive(assertion)) {
-                UNREPRODUCED_WATCHDOGS.fetch_add(1, Ordering::SeqCst);
+            for pause_ms in RETRY_PAUSES_MS {
+                std::thread::sleep(std::time::Duration::from_millis(pause_ms));
+                let again = interpret(worker.borrow_mut().run_tape(&tape, avoid, render, budget));
+                let killed = matches!(&again, Exec::Fail { assertion, .. } if environment_sensitive(assertion));
                 e = again;
+                if !killed {
+                    UNREPRODUCED_WATCHDOGS.fetch_add(1, Ordering::SeqCst);
+                    break;
+                }
             }
         }
         if shrinking {
@@ -506,13 +517,20 @@ fn run_space(id: &str, tier: Tier, space: usize, name: &str, size: u64, cpu_ms: 
                 // a watchdog kill counts only if the single case shows it again; otherwise the batch is run again
                 for _ in 0..3 {
                     let Ok(Resp::Watchdog(_, idx)) = &resp else { break };
-                    match w.run_enum(space, *idx, *idx + 1, false, cpu_ms) {
-                        Ok(Resp::Batch(_, None)) => {
-                            UNREPRODUCED_WATCHDOGS.fetch_add(1, Ordering::SeqCst);
-                            resp = w.run_enum(space, start, end, render, cpu_ms);
+                    let idx = *idx;
+                    let mut passed = false;
+                    for pause_ms in RETRY_PAUSES_MS {
+                        std::thread::sleep(std::time::Duration::from_millis(pause_ms));
+                        if let Ok(Resp::Batch(_, None)) = w.run_enum(space, idx, idx + 1, false, cpu_ms) {
+                            passed = true;
+                            break;
                         }
-                        _ => break,
                     }
+                    if !passed {
+                        break;
+                    }
+                    UNREPRODUCED_WATCHDOGS.fetch_add(1, Ordering::SeqCst);
+                    resp = w.run_enum(space, start, end, render, cpu_ms);
                 }
                 let mut viol: Option<(u64, String, String, String)> = None;
                 match resp {
@@ -1012,7 +1030,7 @@ pub fn run_main(id: &str, tier: Tier) -> i32 {
     let unrep = UNREPRODUCED_WATCHDOGS.load(Ordering::SeqCst);
     if unrep > 0 {
         ev.extra.insert("watchdog_kills_not_reproduced_on_second_execution".into(), json!(unrep));
-        println!("NOTE: {} watchdog kill(s) / worker death(s) did not happen again when the case was executed a second time; they are not counted (host load)", unrep);
+        println!("NOTE: {} watchdog kill(s) / worker death(s) did not happen again when the case was executed again after a pause; they are not counted (host load)", unrep);
     }
     if inner > 0 {
         ev.extra.insert("inner_evaluations".into(), json!(inner));
